@@ -51,21 +51,22 @@ const uioPath = "github.com/u-root/uio/uio"
 
 // external functions that neither retain nor return memory of their arguments
 var pureExternal = map[string]string{
-	"fmt.Errorf":             "result is an error (not tracked)",
-	"fmt.Sprintf":            "returns a freshly built string",
-	"fmt.Sprint":             "returns a freshly built string",
-	"errors.New":             "result is an error (not tracked)",
-	"bytes.Clone":            "append([]byte{}, b...): fresh copy",
-	"bytes.Equal":            "bool",
-	"strings.Index":          "int",
-	"strings.Join":           "returns a freshly built string (or one of the immutable inputs)",
-	"encoding/binary.Read":   "fills data from r.Read into its own buffer; retains nothing",
-	"encoding/binary.Write":  "calls w.Write with its own fresh buffer; retains nothing",
-	"(error).Error":          "string of an error (not tracked)",
-	"(net.IP).String":        "returns a freshly built string",
-	"(net.IP).Equal":         "bool",
-	"(net.IPMask).Size":      "ints",
-	"net.CIDRMask":           "fresh mask",
+	"fmt.Errorf":                "result is an error (not tracked)",
+	"fmt.Sprintf":               "returns a freshly built string",
+	"fmt.Sprint":                "returns a freshly built string",
+	"errors.New":                "result is an error (not tracked)",
+	"bytes.Clone":               "append([]byte{}, b...): fresh copy",
+	"slices.Clone":              "append(s[:0:0], s...): fresh copy",
+	"bytes.Equal":               "bool",
+	"strings.Index":             "int",
+	"strings.Join":              "returns a freshly built string (or one of the immutable inputs)",
+	"encoding/binary.Read":      "fills data from r.Read into its own buffer; retains nothing",
+	"encoding/binary.Write":     "calls w.Write with its own fresh buffer; retains nothing",
+	"(error).Error":             "string of an error (not tracked)",
+	"(net.IP).String":           "returns a freshly built string",
+	"(net.IP).Equal":            "bool",
+	"(net.IPMask).Size":         "ints",
+	"net.CIDRMask":              "fresh mask",
 	"(*strings.Builder).String": "builder's own buffer",
 }
 
@@ -74,11 +75,11 @@ type slotSet uint64
 const globalSlot = 63
 
 type site struct {
-	fn   *ssa.Function
-	pos  token.Pos
-	desc string // field description
-	name string // "pkg.Func: desc" (made unique later)
-	ord  int    // order inside the function
+	fn    *ssa.Function
+	pos   token.Pos
+	desc  string // field description
+	name  string // "pkg.Func: desc" (made unique later)
+	ord   int    // order inside the function
 	chain string
 }
 
@@ -256,6 +257,9 @@ func (a *analyzer) analyzable(fn *ssa.Function) bool {
 	if fn == nil || fn.Blocks == nil {
 		return false
 	}
+	if np, nf, nr := slotCount(fn); np+nf+nr > 60 {
+		return false
+	}
 	p := fnTypesPkg(fn)
 	return p != nil && a.inScope[p]
 }
@@ -310,6 +314,9 @@ func fnName(fn *ssa.Function) string {
 
 // extName: name used for the external allow-list.
 func extName(fn *ssa.Function) string {
+	if o := fn.Origin(); o != nil && o != fn {
+		return extName(o)
+	}
 	if fn.Signature != nil && fn.Signature.Recv() != nil {
 		return "(" + types.TypeString(fn.Signature.Recv().Type(), nil) + ")." + fn.Name()
 	}
@@ -539,7 +546,9 @@ func (a *analyzer) analyze(c *ctxInfo) *summary {
 			switch b.Name() {
 			case "append":
 				if call != nil && len(cm.Args) >= 1 {
-					g.unifyV(call, cm.Args[0])
+					if !zeroCapSlice(cm.Args[0]) { // append(s[:0:0], x...) always allocates
+						g.unifyV(call, cm.Args[0])
+					}
 					if len(cm.Args) == 2 {
 						if sl, ok := call.Type().Underlying().(*types.Slice); ok && hasPtr(sl.Elem()) {
 							g.edgeV(call, cm.Args[1])
@@ -844,6 +853,19 @@ func (a *analyzer) analyze(c *ctxInfo) *summary {
 		}
 	}
 	return out
+}
+
+// zeroCapSlice: v is x[:0:0] (length and capacity 0: appending to it allocates).
+func zeroCapSlice(v ssa.Value) bool {
+	sl, ok := v.(*ssa.Slice)
+	if !ok || sl.High == nil || sl.Max == nil {
+		return false
+	}
+	isZero := func(x ssa.Value) bool {
+		c, ok := x.(*ssa.Const)
+		return ok && c.Value != nil && c.Int64() == 0
+	}
+	return isZero(sl.High) && isZero(sl.Max)
 }
 
 func convCopies(from, to types.Type) bool {
@@ -1317,7 +1339,8 @@ func extractProvenance(initial []*packages.Package, fset *token.FileSet) {
 			}
 		}
 	}
-	po := &provenanceOut{Externals: a.externals, UioSummaries: map[string]string{}, Contexts: len(a.order), Iterations: iter, Roots: rootNamesOut}
+	po := &provenanceOut{Leaves: []provRow{}, Views: []viewEvidence{}, TopEncoders: []encRow{}, OptEncoders: []encRow{},
+		FieldEncoders: []string{}, Unresolved: []string{}, Externals: a.externals, UioSummaries: map[string]string{}, Contexts: len(a.order), Iterations: iter, Roots: rootNamesOut}
 	for s, g := range leaves {
 		po.Leaves = append(po.Leaves, provRow{s.name, g.owned})
 		if !g.owned {
